@@ -434,7 +434,7 @@ Theorem run_only_appends t tmsg ins rows st :
      (* rows it rewrites to cl>>cp *)
      (forall cl cp, guard cl cp -> rxn (post_process OR (entering_pp s)) = cl ++ ">>" ++ cp ->
         appended cl cp (rxn r) \/ rxn r = s \/ appended gl gp (rxn r)))
-    (admitted OR ins) rows.
+    (kept_inputs OR ins) rows.
 Proof.
   intros H. pose proof (run_rows_are_alone_results OR db ban fuel t tmsg ins rows st H) as A.
   eapply Forall2_impl; [|exact A]. intros s r [r1 [A1 E]] gl gp Es G. cbv beta.
